@@ -505,33 +505,50 @@ func VH_C06_Encoding() {
 	vreach("c06-enc-soft")
 }
 
-// C06-L: the low-S rule at full width. A well-formed 70-byte DER signature with every byte of R and S
-// symbolic (leading bytes 01..7f, so no padding question arises): under LOW_S the opcode fails with the
-// high-S error exactly when S exceeds half the group order; in every other case the signature is merely
-// forged (false, or a hard failure under NULLFAIL), never a high-S error.
+// C06-L: full-width signatures. A DER-shaped signature 30 LL 02 rl R 02 sl S with rl in {32,33},
+// sl in {32,33,34} and every byte of R and S symbolic (so padding, sign bits and the overall 73-byte
+// limit are all in play): under the encoding flags the opcode hard-fails exactly when the BIP66 rules
+// reject the bytes; for well-formed ones the high-S error is raised exactly for S above half the group
+// order under LOW_S; in every other case the signature is merely forged (false, or a hard failure
+// under NULLFAIL).
 func VH_C06_LowS() {
 	e := vsigThread(bscript.OpCHECKSIG)
 	th := e.th
 	_, pub := vkey("key")
-	r, s := vnondetBytes("sig-r", 32, 32), vnondetBytes("sig-s", 32, 32)
-	vassume(r[0] >= 1 && r[0] <= 0x7f && s[0] >= 1 && s[0] <= 0x7f)
-	sig := append([]byte{0x30, 68, 0x02, 32}, r...)
-	sig = append(sig, 0x02, 32)
+	rl := 32 + vnondetLen("r-len", 0, vparam("RL", 1))
+	sl := 32 + vnondetLen("s-len", 0, vparam("SL", 2))
+	r, s := vnondetBytes("sig-r", rl, rl), vnondetBytes("sig-s", sl, sl)
+	sig := append([]byte{0x30, byte(rl + sl + 4), 0x02, byte(rl)}, r...)
+	sig = append(sig, 0x02, byte(sl))
 	sig = append(sig, s...)
 	sig = append(sig, vhashType(e.forkid))
 	th.dstack.stk = [][]byte{sig, pub}
 	err := th.executeOpcode(th.scripts[1][th.scriptOff])
-	// half the order of secp256k1, from the curve specification (SEC 2): n = FFFFFFFF FFFFFFFF FFFFFFFF FFFFFFFE BAAEDCE6 AF48A03B BFD25E8C D0364141
-	half := []byte{0x7f, 0xff, 0xff, 0xff, 0xff, 0xff, 0xff, 0xff, 0xff, 0xff, 0xff, 0xff, 0xff, 0xff, 0xff, 0xff, 0x5d, 0x57, 0x6e, 0x73, 0x57, 0xa4, 0x50, 0x1d, 0xdf, 0xe9, 0x2f, 0x46, 0x68, 0x1b, 0x20, 0xa0}
-	high := new(big.Int).SetBytes(s).Cmp(new(big.Int).SetBytes(half)) > 0
-	isHighErr := err != nil && verrCode(err) == int(errs.ErrSigHighS)
-	vassert(isHighErr == (high && th.flags&scriptflag.VerifyLowS != 0), "C06: the high-S failure is raised exactly for S above half the order under LOW_S")
-	if !isHighErr {
-		if th.flags&scriptflag.VerifyNullFail != 0 {
+	fl := th.flags
+	derFlags := fl&(scriptflag.VerifyDERSignatures|scriptflag.VerifyLowS|scriptflag.VerifyStrictEncoding) != 0
+	forged := func() {
+		if fl&scriptflag.VerifyNullFail != 0 {
 			vassert(err != nil, "C06: forged full-width signature is a hard failure under NULLFAIL")
 		} else {
 			vassert(err == nil && len(th.dstack.stk) == 1 && !asBool(th.dstack.stk[0]), "C06: forged full-width signature yields false")
 		}
+	}
+	if !refIsDER(sig) {
+		if derFlags {
+			vassert(err != nil, "C06: malformed full-width signature is a hard failure under the encoding flags")
+		} else {
+			forged()
+		}
+		vreach("c06-lows-malformed")
+		return
+	}
+	// half the order of secp256k1, from the curve specification (SEC 2): n = FFFFFFFF FFFFFFFF FFFFFFFF FFFFFFFE BAAEDCE6 AF48A03B BFD25E8C D0364141
+	half := []byte{0x7f, 0xff, 0xff, 0xff, 0xff, 0xff, 0xff, 0xff, 0xff, 0xff, 0xff, 0xff, 0xff, 0xff, 0xff, 0xff, 0x5d, 0x57, 0x6e, 0x73, 0x57, 0xa4, 0x50, 0x1d, 0xdf, 0xe9, 0x2f, 0x46, 0x68, 0x1b, 0x20, 0xa0}
+	high := new(big.Int).SetBytes(s).Cmp(new(big.Int).SetBytes(half)) > 0
+	isHighErr := err != nil && verrCode(err) == int(errs.ErrSigHighS)
+	vassert(isHighErr == (high && fl&scriptflag.VerifyLowS != 0), "C06: the high-S failure is raised exactly for S above half the order under LOW_S")
+	if !isHighErr {
+		forged()
 		vreach("c06-lows-low")
 	} else {
 		vreach("c06-lows-high")
